@@ -12,6 +12,8 @@
 
 #include <climits>
 #include <cmath>
+#include <cstring>
+#include <new>
 #include <variant>
 
 namespace h
@@ -70,6 +72,7 @@ enum
     T_PAIR,
     T_VARIANT,
     T_PTR,
+    T_S5, // 64-bit integer member (appended: the numbering of saved cases stays valid)
     T_COUNT
 };
 static const char* type_name(int t)
@@ -81,7 +84,8 @@ static const char* type_name(int t)
                                "std::tuple<int,string,double>",
                                "std::pair<int,string>",
                                "std::variant<int,string>",
-                               "unique_ptr/shared_ptr<S2>" };
+                               "unique_ptr/shared_ptr<S2>",
+                               "S5(int64,string)" };
     return t >= 0 && t < T_COUNT ? n[t] : "?";
 }
 
@@ -144,6 +148,26 @@ struct S3 : nitro::lang::tuple_operators<S3>
     std::string s;
     double d;
 };
+// the 64-bit value of a Val: spreads the generated integers over the whole range
+static long long wide(const Val& v)
+{
+    static const long long W[] = { 0, 1, -1, 1ll << 31, -(1ll << 31), 1ll << 32, (1ll << 32) + 1,
+                                   -(1ll << 32), 1ll << 33, (1ll << 62), LLONG_MIN, LLONG_MAX, 3ll << 32 };
+    long long i = v.i;
+    return W[static_cast<std::size_t>((i % 13 + 13) % 13)];
+}
+struct S5 : nitro::lang::tuple_operators<S5>
+{
+    explicit S5(const Val& v) : a(wide(v)), s(v.s)
+    {
+    }
+    auto as_tuple()
+    {
+        return std::tie(a, s);
+    }
+    long long a;
+    std::string s;
+};
 using Var = std::variant<int, std::string>;
 static Var make_var(const Val& v)
 {
@@ -201,6 +225,10 @@ static int ref_cmp(int type, const Val& a, const Val& b)
         if ((r = cmp_str(a.s, b.s)))
             return r;
         return cmp3(DTAB[a.d % NDTAB], DTAB[b.d % NDTAB]);
+    case T_S5:
+        if ((r = cmp3(wide(a), wide(b))))
+            return r;
+        return cmp_str(a.s, b.s);
     case T_TUPLE:
         if ((r = cmp3(static_cast<int>(a.i), static_cast<int>(b.i))))
             return r;
@@ -245,6 +273,8 @@ static int components_differing(int type, const Val& a, const Val& b)
         return di + ds;
     case T_S3:
         return (static_cast<std::int8_t>(a.i) != static_cast<std::int8_t>(b.i)) + ds + dd;
+    case T_S5:
+        return (wide(a) != wide(b)) + ds;
     case T_TUPLE:
         return di + ds + dd;
     default:
@@ -303,6 +333,11 @@ S4 make<S4>(const Val& v)
 {
     return S4(v);
 }
+template <>
+S5 make<S5>(const Val& v)
+{
+    return S5(v);
+}
 using Tup = std::tuple<int, std::string, double>;
 template <>
 Tup make<Tup>(const Val& v)
@@ -328,6 +363,9 @@ static std::vector<Val> grid_values(int type, bool small)
     std::vector<long long> ints = small ? std::vector<long long>{ INT_MIN, -1, 0, 1, INT_MAX }
                                         : std::vector<long long>{ INT_MIN, -2, -1, 0, 1, 2, 3,
                                                                   1 << 20, INT_MAX };
+    if (type == T_S5)
+        ints = small ? std::vector<long long>{ 0, 3, 5, 6, 10 }
+                     : std::vector<long long>{ 0, 1, 2, 3, 4, 5, 6, 7, 8, 9, 10, 11, 12 };
     if (type == T_S3)
         ints = small ? std::vector<long long>{ -128, -1, 0, 1, 127 }
                      : std::vector<long long>{ -128, -2, -1, 0, 1, 2, 3, 127 };
@@ -450,6 +488,11 @@ static void mutate(S3& t, const Val& v)
     std::get<0>(t.as_tuple()) = static_cast<std::int8_t>(v.i); // through the tuple of references
     t.s = v.s;
     t.d = DTAB[v.d % NDTAB];
+}
+static void mutate(S5& t, const Val& v)
+{
+    t.a = wide(v);
+    t.s = v.s;
 }
 static void mutate(S4& t, const Val& v)
 {
@@ -591,6 +634,46 @@ static std::string run_ptr(const Case& c, vf::Ctx& ctx)
     }
     else if (components_differing(T_S2, c.x, c.y) == 1)
         ctx.mark_nontrivial();
+    // pointers to pairs, tuples, variants and pointers hash through their pointee, too
+    {
+        Pr pv = make<Pr>(c.x);
+        Tup tv = make<Tup>(c.x);
+        Var vv = make<Var>(c.x);
+        auto up = std::make_unique<Pr>(pv);
+        auto st = std::make_shared<Tup>(tv);
+        auto uv = std::make_unique<Var>(vv);
+        auto pp = std::make_shared<std::unique_ptr<Pr>>(std::make_unique<Pr>(pv));
+        if (nitro::lang::hash(up) != nitro::lang::hash(pv) || nitro::lang::hash(st) != nitro::lang::hash(tv) ||
+            nitro::lang::hash(uv) != nitro::lang::hash(vv) || nitro::lang::hash(pp) != nitro::lang::hash(pv))
+            return "hash of a smart pointer to a pair/tuple/variant/pointer differs from the hash of its "
+                   "pointee: " + describe(c);
+        auto up2 = std::make_unique<Pr>(pv);
+        if (nitro::lang::hash(up) != nitro::lang::hash(up2))
+            return "equal pairs behind distinct pointers hash differently: " + describe(c);
+    }
+    // pairs of integers of different widths: equal values hash equal whatever lies in the
+    // padding bytes of the storage they were built in
+    {
+        alignas(16) unsigned char b1[64], b2[64];
+        std::memset(b1, 0x00, sizeof b1);
+        std::memset(b2, 0xff, sizeof b2);
+        using P1 = std::pair<char, int>;
+        using P2 = std::pair<std::int64_t, short>;
+        using P3 = std::pair<bool, long long>;
+        auto* p1a = new (b1) P1(static_cast<char>(c.x.i), static_cast<int>(c.y.i));
+        auto* p1b = new (b2) P1(static_cast<char>(c.x.i), static_cast<int>(c.y.i));
+        bool bad = nitro::lang::hash(*p1a) != nitro::lang::hash(*p1b);
+        auto* p2a = new (b1) P2(wide(c.x), static_cast<short>(c.y.i));
+        auto* p2b = new (b2) P2(wide(c.x), static_cast<short>(c.y.i));
+        bad |= nitro::lang::hash(*p2a) != nitro::lang::hash(*p2b);
+        auto* p3a = new (b1) P3(c.x.i % 2 != 0, wide(c.y));
+        auto* p3b = new (b2) P3(c.x.i % 2 != 0, wide(c.y));
+        bad |= nitro::lang::hash(*p3a) != nitro::lang::hash(*p3b);
+        ctx.tag("pair:padded-integers");
+        if (bad)
+            return "equal pairs of integers of different widths hash differently (the hash depends on "
+                   "padding bytes): " + describe(c);
+    }
     return "";
 }
 
@@ -613,6 +696,8 @@ Case generate(vf::Src& src, const std::string& mode)
     {
         c.grid = true;
         c.type = src.irange(0, T_COUNT - 2); // every type with a grid
+        if (c.type == T_PTR)
+            c.type = T_S5;
         return c;
     }
     c.type = src.irange(0, T_COUNT - 1);
@@ -674,6 +759,8 @@ std::string check(const Case& c, vf::Ctx& ctx)
             return run_grid<Tup>(c.type, false, ctx);
         case T_PAIR:
             return run_grid<Pr>(c.type, false, ctx);
+        case T_S5:
+            return run_grid<S5>(c.type, true, ctx);
         default:
             return run_grid<Var>(c.type, false, ctx);
         }
@@ -723,6 +810,13 @@ std::string check(const Case& c, vf::Ctx& ctx)
         m = run_random<Var>(c, false, ctx);
         if (m.empty())
             m = run_container<Var>(c, ctx);
+        break;
+    case T_S5:
+        m = run_random<S5>(c, true, ctx);
+        if (m.empty())
+            m = run_container<S5>(c, ctx);
+        if (m.empty())
+            m = run_mutation<S5>(c, ctx);
         break;
     default:
         m = run_ptr(c, ctx);
